@@ -80,11 +80,17 @@ class C13(Check):
         quick = tier == "quick"
         self.sweeps = 0
         real.inner.long_lived_filters = True
-        for _ in range(300 if quick else 3000):
-            lines, outs = gen.random_history(rng, real, all_ops, rng.randint(3, 14), audit=())
-            p = gen.Pool()
-            for l, o in zip(lines, outs):
-                p = p.after(l, o)
+        import props_render
+        dense = props_render.worlds(tier, rng, real, ["D", "U", "DD", "UU", "X"], attrs=True)
+        for it in range(300 if quick else 3000):
+            if it % 2 == 0:
+                lines, outs = gen.random_history(rng, real, all_ops, rng.randint(3, 14), audit=())
+            else:
+                # denser well-formed graphs with universes over most vertices (renderers have something to sort)
+                lines, _unis = next(dense)
+                lines = [l for l in lines if l != "flag on"]
+                outs = [real.step(l) for l in lines]
+            p = gen.Pool.from_real(real.inner)
             if rng.random() < 0.4:
                 lines.append("flag on")
                 outs.append(real.step("flag on"))
@@ -92,6 +98,9 @@ class C13(Check):
             outs.append(real.step("obs"))
             ro = readonly_ops(p, rng)
             rng.shuffle(ro)
+            # renders with a sort key while the memos are still cold come first
+            cold = [q for q in ro if q.startswith("plain") and not q.endswith(" -")]
+            ro = cold + [q for q in ro if q not in cold]
             for q in ro[: (25 if quick else 60)]:
                 for l in (q, "obs"):
                     lines.append(l)
@@ -117,17 +126,18 @@ class C13(Check):
         # observably unchanged also means: what OTHER read-only calls answer afterwards is unchanged
         if Vertex.NEIGHBOR_CACHING and t[0] in ("plain", "puml", "pyvis", "bft", "dftr", "dfti", "bfs", "dfsr", "dfsi"):
             for v in real.V:
-                try:
-                    got = [id(x) for x in helpers.neighbors(v, 0, 1)]
-                except Exception:  # noqa: BLE001
-                    continue
-                Vertex.NEIGHBOR_CACHING = False
-                try:
-                    want = [id(x) for x in helpers.neighbors(v, 0, 1)]
-                finally:
-                    Vertex.NEIGHBOR_CACHING = True
-                if got != want:
-                    return "after %s, neighbors(%s) answers differently from a recomputation" % (line, real.sv(v))
+                for unk in (2, 1):
+                    try:
+                        got = [id(x) for x in helpers.neighbors(v, 0, unk)]
+                    except Exception:  # noqa: BLE001
+                        continue
+                    Vertex.NEIGHBOR_CACHING = False
+                    try:
+                        want = [id(x) for x in helpers.neighbors(v, 0, unk)]
+                    finally:
+                        Vertex.NEIGHBOR_CACHING = True
+                    if got != want:
+                        return "after %s, neighbors(%s) answers differently from a recomputation" % (line, real.sv(v))
         # a faulted nbrs / flinks call: repeating it with a well-behaved callback gives the normal answer
         if (t[0] == "nbrs" and len(t) == 6) or (t[0] == "flinks" and len(t) == 7):
             again = real.step(" ".join(t[:-1]))
